@@ -136,7 +136,9 @@ func normList(list []snode, budget *int) []snode {
 			na := normList(a, budget)
 			if !endsInJump(na) && len(rest) > 0 && *budget > 0 {
 				*budget -= len(rest)
-				na = append(na, normList(rest, budget)...)
+				// the arm falls through into the rest of the list: normalise the concatenation (the arm may itself
+				// end in a conditional that has to receive the continuation)
+				na = normList(append(append([]snode(nil), a...), rest...), budget)
 			}
 			n.arms = append(n.arms, na)
 		}
